@@ -253,6 +253,34 @@ func init() {
 						}
 					}
 				}},
+				// text between a component's ")" and what follows is text unless it is plain whitespace before a @slot:
+				// whatever the rest renders to, these bytes must be in the output
+				{Name: "text-after-component", Exhaustive: true, N: 9 * 3, Run: func(c *core.Ctx, i int) {
+					t := []string{"\u00a0", "\f", "\v", "\u0085", "\u3000", "x", "-", "\u2003", " \u00a0 "}[i%9]
+					shape := i / 9
+					page := []string{
+						"<a>@component(\"~box\")" + t + "@slot(\"head\")HEAD@end@end</a>",
+						"<a>@component(\"~box\")" + t + "</a>",
+						"<a>@component(\"~box\")@slot(\"head\")HEAD@end" + t + "</a>",
+					}[shape]
+					files := map[string]string{"components/box.tw": "[@slot(\"head\")]", "page.tw": page}
+					tpl, err := loadTree(c, "c07text", files, ".tw")
+					c.Nontrivial(page)
+					if err != nil || tpl == nil {
+						return // a tree the loader refuses is not judged here
+					}
+					got, _ := renderPage(c, tpl, "page", nil)
+					if got.Failed() {
+						return
+					}
+					want := strings.TrimSpace(t)
+					if shape == 2 {
+						return // after the last slot the text is between slots and the closing @end: skipped by design
+					}
+					if !strings.Contains(got.Out, want) {
+						c.Violation("text-after-component-lost", fmt.Sprintf("the text %q written after the component is missing from the output %q", t, got.Out), map[string]any{"files": describeFiles(files)})
+					}
+				}},
 				{Name: "fault-trees", N: nf, Run: func(c *core.Ctx, i int) {
 					cc := genComponentTree(c, i)
 					def := cc.comps[0]
